@@ -53,7 +53,7 @@ func (g *fastGenerator) genUnmarshalMethod() {
 		g.unmarshalField(field, g.message, true, required)
 	}
 	g.P(`default:`)
-	if len(g.message.Extensions) > 0 {
+	if g.message.Desc.ExtensionRanges().Len() > 0 {
 		c := []string{}
 		eranges := g.message.Desc.ExtensionRanges()
 		for e := 0; e < eranges.Len(); e++ {
@@ -99,7 +99,7 @@ func (g *fastGenerator) genUnmarshalMethod() {
 	g.P(`x.unknownFields = append(x.unknownFields, dAtA[iNdEx:iNdEx+skippy]...)`)
 	g.P("}")
 	g.P(`iNdEx += skippy`)
-	if len(g.message.Extensions) > 0 {
+	if g.message.Desc.ExtensionRanges().Len() > 0 {
 		g.P(`}`)
 	}
 	g.P(`}`)
